@@ -206,18 +206,29 @@ def insTV (t : TV) : List TV → List TV
 /-- Insertion sort by the numeric collation (`mlrval.LessThan`), stable. -/
 def sortTVs (vs : List TV) : List TV := vs.foldl (fun acc t => insTV t acc) []
 
-/-- `GetPercentileNonInterpolated`: index = int(p*n/100) clamped. (p integral here.) -/
-def percentileIndex (p n : Nat) : Nat :=
-  let idx := F64.toInt64 (F64.div (F64.mul (F64.ofInt p) (F64.ofInt n)) (F64.ofInt 100))
+/-- `GetPercentileNonInterpolated`: index = int(p * float64(n) / 100.0), clamped to [0, n-1];
+`pb` = the percentile as a double (bit pattern), the operations are IEEE double operations in
+exactly this order. -/
+def percentileIndexB (pb n : Nat) : Nat :=
+  let idx := F64.toInt64 (F64.div (F64.mul pb (F64.ofInt n)) (F64.ofInt 100))
   let i := if idx ≥ (n : Int) then (n : Int) - 1 else idx
   (if i < 0 then 0 else i).toNat
 
-def percentileOf (p : Nat) (vs : List TV) : TV :=
-  if vs.isEmpty then { v := .void } else (sortTVs vs).getD (percentileIndex p vs.length) { v := .void }
+def percentileIndex (p n : Nat) : Nat := percentileIndexB (F64.ofInt p) n
 
+def percentileOfB (pb : Nat) (vs : List TV) : TV :=
+  if vs.isEmpty then { v := .void } else (sortTVs vs).getD (percentileIndexB pb vs.length) { v := .void }
+
+def percentileOf (p : Nat) (vs : List TV) : TV := percentileOfB (F64.ofInt p) vs
+
+/-- `tryPercentileFromName`: "median" = 50; "p<number>" with 0 ≤ number ≤ 100. -/
 def percentileName (name : String) : Option Nat :=
-  if name == "median" then some 50
-  else if name.startsWith "p" then (name.drop 1).toString.toNat? else none
+  if name == "median" then some (F64.ofInt 50)
+  else if name.startsWith "p" then
+    match ParseFloat.parse ((name.drop 1).toString.toList.map Char.toNat) with
+    | some b => if F64.isNaN b || F64.lt b (F64.ofInt 0) || F64.lt (F64.ofInt 100) b then none else some b
+    | none => none
+  else none
 
 /-- Emit one accumulator by name. -/
 def Acc.emit (a : Acc) (name : String) : Option TV :=
@@ -236,7 +247,7 @@ def Acc.emit (a : Acc) (name : String) : Option TV :=
   | other => (percentileName other).map fun p =>
     -- Go's sort.Slice is unstable: among values that collate equal (3 vs 3.0) either may be
     -- returned, so the result is marked "equal under the numeric collation" (marker byte 1)
-    let t := percentileOf p a.values
+    let t := percentileOfB p a.values
     { v := t.v, text := some (1 :: t.render) }
 
 /-- stats1 -a accs -f valueFields [-g groupFields] (no regexes, no -s, no sliding windows).
